@@ -64,7 +64,7 @@ def run(tier, seed):
         ([[2.0, 1.0], [0.5, 0.25], [0.0, 0.0]], [[0, 2], [1, 0], [0, 0]]),
         ([0.7, 0.2, 0.1, 1.3], [120, 30, 60, 90]),        # hundreds of events
     ]
-    n_rand = 40 if quick else 600
+    n_rand = 40 if quick else 3000
     for _ in range(n_rand):
         n = rng.randint(1, 6)
         rr = [rng.choice(POOL + [0.0, 0.0]) for _ in range(n)]
@@ -96,7 +96,7 @@ def run(tier, seed):
                       key=('a2seed', mode, repr(rr), repr(cc)))
 
     # ---- (b) the public tests
-    n_fore = 6 if quick else 60
+    n_fore = 6 if quick else 150
     for gname, grid in oe.GRIDS.items():
         nc, nm = oe.grid_shape(grid)
         forecasts = [[[0.1 * (i + 1) * (k + 1) for k in range(nm)] for i in range(nc)],
